@@ -49,7 +49,7 @@ class LiteralTypeHint(TypeHint):
         # all child hints subscripting this literal is a subset of the set of
         # all child hints subscripting that literal.
         if isinstance(other, LiteralTypeHint):
-            return all(self_arg in other._args for self_arg in self._args)
+            return self._is_subhint_branch(other)
         # Else, the passed hint is *NOT* also a literal.
 
         # Return true only if either...
@@ -83,3 +83,30 @@ class LiteralTypeHint(TypeHint):
             #     True
             super()._is_subhint(other)
         )
+
+
+    def _is_subhint_branch(self, branch: TypeHint) -> bool:
+
+        # If that branch is also a literal, return true only if each child
+        # object subscripting this literal is a child object subscripting that
+        # literal. Since a literal is satisfied only by objects of the same type
+        # as *AND* equal to one of its child objects, child objects are compared
+        # by type and equality rather than by equality alone (e.g.,
+        # "Literal[1]" is *NOT* a subhint of "Literal[True]" despite "1 == True",
+        # as the integer "1" violates "Literal[True]").
+        #
+        # Note that the superclass implementation would erroneously return true
+        # for *ANY* two literals, as literals present themselves as having *NO*
+        # child type hints.
+        if isinstance(branch, LiteralTypeHint):
+            return all(
+                any(
+                    type(self_arg) is type(branch_arg) and self_arg == branch_arg
+                    for branch_arg in branch._args
+                )
+                for self_arg in self._args
+            )
+        # Else, that branch is *NOT* also a literal.
+
+        # Defer to the superclass implementation.
+        return super()._is_subhint_branch(branch)
